@@ -1,98 +1,95 @@
-(* C07 proofs for model/C07_Birth.v.
-   BirthP: inductive invariant of the one-entry LTS (any idle timeout, any start clock, any schedule of receive loop,
-   sweeper, reply loop, final cleanup and clock), with udp.go:60 as it is (stamp_at_birth = true); the refutation of
-   the same statements for the neighbouring design (stamp_at_birth = false).
+(* C07 proofs for model/C07_Birth.v, part 2.
+   BirthT: the statements about one entry's life (with udp.go:60 as it is), from the invariant of proof/C07_BirthInv.v, and
+   their refutation for the neighbouring design (stamp_at_birth = false).
    LocksP: threads that follow the discipline never deadlock on m.mutex and finish; the functions of udp.go follow it;
    a cleanup that re-acquires the read lock deadlocks with one writer. *)
-From Hy Require Import model.C07_Birth.
+From Hy Require Import model.C07_Birth proof.C07_BirthInv.
 From Coq Require Import NArith Arith PeanoNat List Bool Lia ZifyBool ZifyN.
 Import ListNotations.
 Local Open Scope N_scope.
 
-Module BirthP.
-Import Birth.
-
-Inductive reachable (timeout : N) (sab : bool) (t0 : N) (more : nat) : bst -> Prop :=
-| R_init : reachable timeout sab t0 more (binit t0 more)
-| R_step s a s' : reachable timeout sab t0 more s -> bstep timeout sab s a = Some s' -> reachable timeout sab t0 more s'.
-
-Lemma reachable_run timeout sab t0 more s acts s' :
-  reachable timeout sab t0 more s -> brun timeout sab s acts = Some s' -> reachable timeout sab t0 more s'.
-Proof.
-  intros R. revert s R. induction acts as [|a t IH]; simpl; intros s R H.
-  - inversion H; subst; auto.
-  - destruct (bstep timeout sab s a) as [b|] eqn:E; try discriminate. apply (IH b); auto. eapply R_step; eauto.
-Qed.
-
-Section Inv.
+Module BirthT.
+Import Birth BirthP.
+Section T.
 Variable timeout : N.
 
-Definition rl_final (p : brl) : bool := match p with BSnap | BF1 | BF2 | BF3 | BStop | BDone => true | _ => false end.
-Definition rl_c23 (p : brl) : bool := match p with BC2 | BC3 => true | _ => false end.
-Definition rl_owns (p : brl) : bool :=
-  match p with BCreated _ | BFeed _ | BInit | BWrite | BC1 | BC2 | BC3 | BF1 | BF2 | BF3 => true | _ => false end.
-Definition rl_created (p : brl) : bool := match p with BCreated _ => true | _ => false end.
-Definition rl_unborn (p : brl) : bool := match p with BWait0 | BNew _ => true | _ => false end.
-Definition rl_stopping (p : brl) : bool := match p with BStop | BDone => true | _ => false end.
+(* ---- the statements of props/C07.v ---- *)
 
-(* threads between part 1 of CloseWithErr and logger.Close / between part 1 and the end of the table delete *)
-Definition prl2 (p : brl) : N := match p with BC2 | BF2 => 1 | _ => 0 end.
-Definition psw2 (p : bsw) : N := match p with SC2 => 1 | _ => 0 end.
-Definition prp2 (p : brp) : N := match p with QC2 => 1 | _ => 0 end.
-Definition drl (p : brl) : N := match p with BC2 | BC3 | BF2 | BF3 => 1 | _ => 0 end.
-Definition dsw (p : bsw) : N := match p with SC2 | SC3 => 1 | _ => 0 end.
-Definition drp (p : brp) : N := match p with QC2 | QC3 => 1 | _ => 0 end.
-Definition pend (s : bst) : N := prl2 (b_rl s) + psw2 (b_sw s) + prp2 (b_rp s).
-Definition deleters (s : bst) : N := drl (b_rl s) + dsw (b_sw s) + drp (b_rp s).
-
-(* more than the idle timeout has passed since the entry was created *)
-Definition old (s : bst) : Prop := match b_born s with Some t => t + timeout < b_now s | None => False end.
-Definition stamped (s : bst) : Prop := match b_born s with Some t => t <= b_last s /\ b_last s <= b_now s | None => True end.
-
-Record Inv (s : bst) : Prop := mkInv {
-  j0 : b_born s = None -> b_vis s = false /\ b_closed s = false /\ rl_owns (b_rl s) = false /\ b_rp s = QNone /\
-                          sw_selected s = false /\ b_sock s = false;
-  j1 : rl_unborn (b_rl s) = true -> b_born s = None;
-  j2 : rl_created (b_rl s) = true -> b_closed s = false /\ b_vis s = false;
-  j3 : stamped s;
-  j4 : sw_selected s = true \/ o_nil_early s = true -> old s;
-  j5 : rl_final (b_rl s) = true -> b_lost s = true;
-  j6 : b_closed s = true -> b_sock s = true \/ old s \/ rl_c23 (b_rl s) = true \/ (b_rl s = BIdle /\ b_vis s = false) \/ rl_final (b_rl s) = true;
-  j7 : b_rp s <> QNone -> b_sock s = true;
-  j8 : b_rl s = BInit -> b_sock s = false;
-  j9 : o_closes s + pend s = b2 (b_closed s);
-  j10 : b_vis s = true -> b_closed s = true -> 1 <= deleters s;
-  j11 : rl_stopping (b_rl s) = true -> b_vis s = true -> b_closed s = true;
-  j12 : b_born s <> None -> rl_created (b_rl s) = false -> b_vis s = true \/ b_closed s = true;
-  j13 : (drl (b_rl s) = 1 -> b_closed s = true) /\ (dsw (b_sw s) = 1 -> b_closed s = true) /\ (drp (b_rp s) = 1 -> b_closed s = true);
-  j14 : rl_created (b_rl s) = true -> sw_selected s = false /\ b_rp s = QNone }.
-
-Lemma inv_init t0 more : Inv (binit t0 more).
+(* an entry that is visible in the table was created, and its Last is no older than its creation *)
+Lemma visible_is_stamped t0 more s : reachable timeout true t0 more s -> b_vis s = true ->
+  exists t, b_born s = Some t /\ t <= b_last s /\ b_last s <= b_now s.
 Proof.
-  constructor; unfold binit, old, stamped, pend, deleters, sw_selected; simpl; intros; try tauto; try congruence; try lia.
+  intros R V. destruct (inv_reachable timeout _ _ _ R) as [H0 _ _ H3 _ _ _ _ _ _ _].
+  unfold K0, K3, stamped in *. destruct (b_born s) as [t|].
+  - exists t; tauto.
+  - destruct (H0 eq_refl) as [E _]. congruence.
 Qed.
 
-Local Opaque N.add N.sub N.mul.
-
-Lemma inv_step sab s a s' : sab = true -> Inv s -> bstep timeout sab s a = Some s' -> Inv s'.
+(* the scan of cleanup(true) selects the entry only when more than the idle timeout has passed since its creation *)
+Lemma scan_selects_only_old t0 more s s' : reachable timeout true t0 more s -> bstep timeout true s AScan = Some s' ->
+  b_sw s' = SC1 -> exists t, b_born s = Some t /\ t + timeout < b_now s.
 Proof.
-  intros -> [H0 H1 H2 H3 H4 H5 H6 H7 H8 H9 H10 H11 H12 H13 H14] St.
-  destruct s as [now born last vis closed sock rl sw rp lost stopped more oh onw od odk ow one onl oe oc].
-  unfold old, stamped, pend, deleters, sw_selected in *; simpl in *.
-  destruct a; simpl in St;
-    repeat match type of St with
-           | context [match ?x with _ => _ end] => destruct x eqn:?; try discriminate St
-           end;
-    injection St as <-;
-    (constructor; unfold old, stamped, pend, deleters, sw_selected, idle, set_rl, set_sw, set_rp, set_now, set_last, set_born, set_vis,
-       set_closed, set_sock, set_lost, set_stopped, set_more, obs_dial, obs_write, obs_nil, obs_err in *; simpl in *; intros;
-     subst; simpl in *);
-    try (clear H0 H1 H2 H3 H4 H5 H6 H7 H8 H9 H10 H11 H12 H13 H14; congruence);
-    repeat rewrite andb_true_iff in *; repeat rewrite andb_false_iff in *;
-    try (destruct born; simpl in *);
-    try solve [ intuition (try congruence; try lia) ].
-  Show.
-Abort.
+  intros R St E. assert (R' : reachable timeout true t0 more s') by (eapply R_step; eauto).
+  destruct (inv_reachable timeout _ _ _ R') as [_ _ _ _ H4 _ _ _ _ _ _].
+  assert (Hn : b_now s' = b_now s /\ b_born s' = b_born s).
+  { unfold bstep in St. destruct (b_sw s); try discriminate. injection St as <-. split; reflexivity. }
+  unfold K4, old, sw_selected in H4. rewrite E in H4. destruct Hn as [Hn1 Hn2]. rewrite Hn1, Hn2 in H4.
+  specialize (H4 (or_introl eq_refl)).
+  destruct (b_born s) as [t|]; [exists t; auto | contradiction].
+Qed.
 
-End Inv.
-End BirthP.
+(* while no more than the idle timeout has passed since the creation: the sweeper is not closing the entry and has not
+   reported it closed; before the creation likewise *)
+Lemma young_not_swept t0 more s : reachable timeout true t0 more s ->
+  (forall t, b_born s = Some t -> b_now s <= t + timeout -> sw_selected s = false /\ o_nil_early s = false) /\
+  (b_born s = None -> sw_selected s = false /\ o_nil_early s = false).
+Proof.
+  intros R. destruct (inv_reachable timeout _ _ _ R) as [H0 _ _ _ H4 _ _ _ _ _ _]. unfold K0, K4, old in *. split.
+  - intros t E L. rewrite E in H4.
+    destruct (sw_selected s) eqn:E1, (o_nil_early s) eqn:E2; auto;
+      exfalso; (assert (t + timeout < b_now s) by (apply H4; auto)); lia.
+  - intros E. destruct (H0 E) as (_ & _ & _ & _ & A & _ & B). auto.
+Qed.
+
+(* the datagram that created the entry is not dropped: when the receive loop reaches initConn within the idle timeout of the
+   creation, the entry is open, so "session is closed" is not a possible outcome and the hook is called next *)
+Lemma first_datagram_reaches_hook t0 more s t : reachable timeout true t0 more s ->
+  b_rl s = BInit -> b_born s = Some t -> b_now s <= t + timeout ->
+  b_closed s = false /\ bstep timeout true s AInitClosed = None /\
+  (forall a s', bstep timeout true s a = Some s' -> b_rl s' <> BInit -> o_hook s' = true).
+Proof.
+  intros R E B L. destruct (inv_reachable timeout _ _ _ R) as [_ _ _ _ _ _ H6 H7 _ _ _].
+  assert (C : b_closed s = false).
+  { destruct (b_closed s) eqn:C; auto. exfalso. unfold K6, K7, old in *. rewrite B, E in *.
+    destruct (H6 eq_refl) as [X|[X|[X|[[X _]|X]]]]; try discriminate; try lia.
+    destruct H7 as [_ H7]. rewrite (H7 eq_refl) in X. discriminate. }
+  split; auto. split.
+  - unfold bstep. rewrite E, C. reflexivity.
+  - intros a s' St NE. destruct a; unfold bstep in St; rewrite ?E, ?C in St; try discriminate;
+      try (injection St as <-; reflexivity);
+      try (exfalso; apply NE;
+           repeat match type of St with context [match ?x with _ => _ end] => destruct x; try discriminate St end;
+           injection St as <-; simpl; auto; fail).
+Qed.
+
+(* exactly one Close event: never more than one, and exactly one once everything has returned (if the entry was created);
+   nothing is left in the table then *)
+Lemma one_close_event t0 more s : reachable timeout true t0 more s ->
+  o_closes s <= 1 /\
+  (terminal s = true -> b_vis s = false /\ (b_born s <> None -> b_closed s = true /\ o_closes s = 1)).
+Proof.
+  intros R. destruct (inv_reachable timeout _ _ _ R) as [_ _ _ _ _ _ _ _ H9 H10 _]. unfold K9, K10, pend, deleters in *.
+  split.
+  - destruct (b_closed s); unfold b2 in H9; lia.
+  - unfold terminal. intros T. apply andb_prop in T. destruct T as [T T3]. apply andb_prop in T. destruct T as [T1 T2].
+    destruct (b_rl s) eqn:E1; try discriminate. destruct (b_sw s) eqn:E2; try discriminate.
+    destruct H10 as (A & B & C). simpl in *.
+    assert (V : b_vis s = false).
+    { destruct (b_vis s) eqn:V; auto. specialize (B eq_refl eq_refl). specialize (A eq_refl B).
+      destruct (b_rp s); try discriminate; simpl in A; lia. }
+    split; auto. intros NB. destruct (C NB eq_refl) as [X|X]; [congruence|].
+    split; auto. rewrite X in H9. destruct (b_rp s); try discriminate; simpl in H9; unfold b2 in H9; lia.
+Qed.
+
+End T.
+End BirthT.
